@@ -124,7 +124,35 @@ fn compile(spec: &RegexSpec) -> Result<Regex, String> {
     Regex::with_flags(&spec.pattern, spec.flags.as_str()).map_err(|e| e.to_string())
 }
 
-type DynIter = Box<dyn Iterator<Item = Match>>;
+/// Object-safe view of a concrete match iterator that keeps the *concrete* type's own
+/// Iterator methods reachable (count/last/nth/size_hint may be overridden by the library).
+pub trait MatchIter {
+    fn next(&mut self) -> Option<Match>;
+    fn size_hint_(&self) -> (usize, Option<usize>);
+    fn nth_(&mut self, k: usize) -> Option<Match>;
+    fn count_rest(self: Box<Self>) -> usize;
+    fn last_rest(self: Box<Self>) -> Option<Match>;
+}
+
+impl<I: Iterator<Item = Match>> MatchIter for I {
+    fn next(&mut self) -> Option<Match> {
+        Iterator::next(self)
+    }
+    fn size_hint_(&self) -> (usize, Option<usize>) {
+        Iterator::size_hint(self)
+    }
+    fn nth_(&mut self, k: usize) -> Option<Match> {
+        Iterator::nth(self, k)
+    }
+    fn count_rest(self: Box<Self>) -> usize {
+        Iterator::count(*self)
+    }
+    fn last_rest(self: Box<Self>) -> Option<Match> {
+        Iterator::last(*self)
+    }
+}
+
+type DynIter = Box<dyn MatchIter>;
 
 /// Open an iterator by executor/input kind. Lifetimes are erased: the caller keeps
 /// the Regex (Arc) and the haystack buffer alive for as long as the iterator.
@@ -505,6 +533,7 @@ pub const F_EMPTY_AT_END: u32 = 32;
 pub const F_START_LEN: u32 = 64;
 pub const F_START_BEYOND: u32 = 128;
 pub const F_START_MID: u32 = 256;
+pub const F_ADAPTOR: u32 = 512;
 
 /// Executable reference model of lastIndex iteration for one iterator.
 #[derive(Clone, Debug)]
@@ -599,6 +628,51 @@ impl IterModel {
             p += 1;
         }
         Some(p)
+    }
+
+    /// The rest of this iterator according to the model: unfold of FIRST from the current
+    /// cursor, as (formatted match, start, end). None = unknown (fuel) or longer than `cap`.
+    pub fn peek_rest(&self, model: &Model, cap: usize) -> Option<Vec<(String, usize, usize)>> {
+        let mut out = Vec::new();
+        if self.exhausted {
+            return Some(out);
+        }
+        let mut cur = self.cursor;
+        while let Some(c) = cur {
+            let a = model.first(self.reidx, &self.text, c);
+            match (a.outcome, a.range) {
+                (None, _) => return None,
+                (Some(s), Some((ms, me))) => {
+                    out.push((s, ms, me));
+                    cur = if me > ms { Some(me.min(self.text.len())) } else { self.advance_past_empty(me) };
+                }
+                (Some(s), None) => {
+                    if s != "None" {
+                        return None; // NoRegex / Panicked: not modelled here
+                    }
+                    break;
+                }
+            }
+            if out.len() > cap {
+                return None;
+            }
+        }
+        Some(out)
+    }
+
+    /// Advance the model over matches the engine consumed without showing them (nth).
+    pub fn apply_expected(&mut self, consumed: &[(String, usize, usize)], ran_dry: bool) {
+        for (s, ms, me) in consumed {
+            self.hist.str(s);
+            self.nexts += 1;
+            self.count += 1;
+            self.prev = Some((*ms, *me));
+            self.cursor = if me > ms { Some((*me).min(self.text.len())) } else { self.advance_past_empty(*me) };
+        }
+        if ran_dry {
+            self.exhausted = true;
+            self.nexts += 1;
+        }
     }
 
     /// Check one observed `next()` result against the model and advance the model.
@@ -739,6 +813,7 @@ pub struct ClientStats {
     pub compile_errs: u64,
     pub bursts: u64,
     pub closure_panics: u64,
+    pub adaptors: u64,
     /// finished iterator histories: (history hash, features, nexts)
     pub iter_histories: Vec<(u64, u32, u32)>,
     pub range_observation_failures: u64,
@@ -814,6 +889,7 @@ enum Armed {
     CloneRe(Arc<Regex>),
     Burst(Arc<Regex>, u32, &'static str, u32),
     ReplacePanic(Arc<Regex>, &'static str, u32),
+    Adaptor(u32, u32, u32),
 }
 
 enum ArmedOut {
@@ -821,6 +897,8 @@ enum ArmedOut {
     Drain(Vec<Match>, bool),
     Text(String),
     Cloned(Arc<Regex>),
+    /// (kind, count / match / size_hint)
+    Adapted(u32, usize, Option<Match>, (usize, Option<usize>)),
 }
 
 impl<'a> Client<'a> {
@@ -1040,6 +1118,17 @@ impl<'a> Client<'a> {
                 }
                 return;
             }
+            OpKind::Adaptor { h, kind, k } => match self.handles.get(*h as usize).and_then(|s| s.as_ref()) {
+                None => {
+                    self.rec("NoHandle".into(), 0, Fault::None);
+                    return;
+                }
+                Some(hd) if hd.dead || hd.it.is_none() => {
+                    self.recs.push(OpRec { outcome: "Dead".into(), steps: 0, fault: Fault::None, skipped_dead: true });
+                    return;
+                }
+                Some(_) => Armed::Adaptor(*h, *kind % 4, *k),
+            },
             OpKind::Next { h } | OpKind::Drain { h } => match self.handles.get(*h as usize).and_then(|s| s.as_ref()) {
                 None => {
                     self.rec("NoHandle".into(), 0, Fault::None);
@@ -1126,7 +1215,7 @@ impl<'a> Client<'a> {
 
         // which shared object is being searched (for in-flight statistics)
         let obj = match (&armed, &op.kind) {
-            (Armed::Next(h), _) | (Armed::Drain(h), _) => self.handles[*h as usize].as_ref().map(|x| x.obj).unwrap_or(NO_OBJ),
+            (Armed::Next(h), _) | (Armed::Drain(h), _) | (Armed::Adaptor(h, _, _), _) => self.handles[*h as usize].as_ref().map(|x| x.obj).unwrap_or(NO_OBJ),
             (_, OpKind::Find { re, .. }) | (_, OpKind::Replace { re, .. }) | (_, OpKind::ReplaceNested { re, .. }) | (_, OpKind::Burst { re, .. }) | (_, OpKind::ReplacePanic { re, .. }) => match re {
                 ReRef::Shared(i) if self.sh.kind != PassKind::Fresh => *i % world.regexes.len() as u32,
                 ReRef::Clone(c) if self.sh.kind != PassKind::Fresh => 1000 + (self.tid as u32) * 16 + c,
@@ -1191,7 +1280,7 @@ impl<'a> Client<'a> {
                     }
                 };
                 // never reuse an unwound object
-                if let Armed::Next(h) | Armed::Drain(h) = armed {
+                if let Armed::Next(h) | Armed::Drain(h) | Armed::Adaptor(h, _, _) = armed {
                     if let Some(hd) = self.handles[h as usize].as_mut() {
                         if fault == Fault::None && !is_poison_after_injected(&outcome) {
                             // an engine panic is an observation for the model as well
@@ -1268,6 +1357,59 @@ impl<'a> Client<'a> {
                     if let Some((property, clause, exp, obs)) = first_v {
                         self.c09.push(C09Viol { property, pass: self.sh.pass_no, thread: self.tid, op: i, clause, expected: exp, observed: obs });
                     }
+                    self.rec(outcome, steps, Fault::None);
+                }
+                (ArmedOut::Adapted(kind, n, m, hint), Armed::Adaptor(h, _, _)) => {
+                    // what the model says the rest of this iterator is
+                    let hd = self.handles[h as usize].as_mut().unwrap();
+                    let rest = hd.model.peek_rest(self.sh.model, 1200);
+                    let (outcome, viol): (String, Option<(String, String)>) = match (kind, &rest) {
+                        (0, Some(r)) => (format!("Count({})", n), if r.len() != n { Some((format!("count() == {}", r.len()), format!("{}", n))) } else { None }),
+                        (1, Some(r)) => {
+                            let got = m.as_ref().map(fmt_match).unwrap_or_else(|| "None".into());
+                            let exp = r.last().map(|x| x.0.clone()).unwrap_or_else(|| "None".into());
+                            (format!("Last({})", got), if exp != got { Some((format!("last() == {}", exp), got)) } else { None })
+                        }
+                        (2, Some(r)) => {
+                            let got = m.as_ref().map(fmt_match).unwrap_or_else(|| "None".into());
+                            let exp = r.get(n).map(|x| x.0.clone()).unwrap_or_else(|| "None".into());
+                            (format!("Nth({};{})", n, got), if exp != got { Some((format!("nth({}) == {}", n, exp), got)) } else { None })
+                        }
+                        (3, Some(r)) => {
+                            let ok = hint.0 <= r.len() && hint.1.map(|hi| r.len() <= hi).unwrap_or(true);
+                            (format!("SizeHint({:?})", hint), if !ok { Some((format!("size_hint bounds the {} remaining matches", r.len()), format!("{:?}", hint))) } else { None })
+                        }
+                        (0, None) => (format!("Count({})", n), None),
+                        (3, None) => (format!("SizeHint({:?})", hint), None),
+                        (k, None) => (format!("{}({})", if k == 1 { "Last" } else { "Nth" }, m.as_ref().map(fmt_match).unwrap_or_else(|| "None".into())), None),
+                        _ => ("?".into(), None),
+                    };
+                    if rest.is_none() {
+                        self.stats.model_unknown += 1;
+                    }
+                    if let Some((exp, obs)) = viol {
+                        self.c09.push(C09Viol { property: "C09", pass: self.sh.pass_no, thread: self.tid, op: i, clause: ["adaptor-count", "adaptor-last", "adaptor-nth", "adaptor-size_hint"][kind as usize], expected: exp, observed: obs });
+                    }
+                    // advance the model the way the adaptor advanced the iterator
+                    match kind {
+                        0 | 1 => {
+                            hd.model.features |= F_ADAPTOR;
+                            hd.model.exhausted = true;
+                            hd.model.nexts += 1;
+                            hd.dead = false;
+                        }
+                        2 => {
+                            hd.model.features |= F_ADAPTOR;
+                            if let Some(r) = &rest {
+                                hd.model.apply_expected(&r[..(n + 1).min(r.len())], r.len() <= n);
+                            } else {
+                                hd.dead = true;
+                                hd.it = None;
+                            }
+                        }
+                        _ => {}
+                    }
+                    self.stats.adaptors += 1;
                     self.rec(outcome, steps, Fault::None);
                 }
                 (ArmedOut::Cloned(a), _) => {
@@ -1427,6 +1569,27 @@ impl<'a> Client<'a> {
                 }
                 ArmedOut::Drain(out, ended)
             }
+            Armed::Adaptor(h, kind, k) => {
+                let hd = self.handles[*h as usize].as_mut().unwrap();
+                match kind {
+                    0 => {
+                        let it = hd.it.take().unwrap();
+                        ArmedOut::Adapted(0, it.count_rest(), None, (0, None))
+                    }
+                    1 => {
+                        let it = hd.it.take().unwrap();
+                        ArmedOut::Adapted(1, 0, it.last_rest(), (0, None))
+                    }
+                    2 => {
+                        let it = hd.it.as_mut().unwrap();
+                        ArmedOut::Adapted(2, *k as usize, it.nth_(*k as usize), (0, None))
+                    }
+                    _ => {
+                        let it = hd.it.as_ref().unwrap();
+                        ArmedOut::Adapted(3, 0, None, it.size_hint_())
+                    }
+                }
+            }
             Armed::CloneRe(rx) => {
                 let c: Regex = (**rx).clone();
                 ArmedOut::Cloned(Arc::new(c))
@@ -1583,6 +1746,7 @@ impl ClientStats {
         self.compile_errs += o.compile_errs;
         self.bursts += o.bursts;
         self.closure_panics += o.closure_panics;
+        self.adaptors += o.adaptors;
         self.range_observation_failures += o.range_observation_failures;
         self.iter_histories.extend(o.iter_histories.iter().cloned());
     }
